@@ -140,6 +140,9 @@ pub fn ev_cases(pl: &Plain, two_d: bool, thorough: bool) -> Vec<EvCase> {
             // an event function that overflows to +inf shortly after its root: +inf has a sign
             v.push(EvCase { label: format!("overflowing event function step {}", k), specs: vec![EventSpec::new(EvKind::ExpY(0, ya[0], 4000.0 / (ya[0] - yb[0]).abs().max(1e-3)))], known_root: None });
         }
+        // roots that take the root finder many iterations: a triple root, and a smoothed switch of width 1e-7
+        v.push(EvCase { label: format!("triple root step {}", k), specs: vec![EventSpec::new(EvKind::CubeT(a))], known_root: Some(a) });
+        v.push(EvCase { label: format!("smoothed switch step {}", k), specs: vec![EventSpec::new(EvKind::TanhT(b, 1e7 / h.abs().max(1e-3)))], known_root: Some(b) });
         // a function counted with terminal_count(2) that fires only once: the run goes on, and what fires later
         // in the same step (and in later steps) is reported as if the count were not there
         v.push(EvCase { label: format!("count-2 function fires once, another later in step {}", k), specs: vec![t(a).term(2), t(b), nt(c)], known_root: Some(a) });
@@ -826,6 +829,15 @@ pub fn run_check(mode: Mode, replay: Option<Value>) -> i32 {
                     w.push(c);
                     seqs.push(w);
                 }
+            }
+        }
+        {
+            // an event left at its Default configuration is an event configured with new(): not terminal, all directions
+            let (d, n) = (EventConfig::default(), EventConfig::new());
+            rep.evaluations += 1;
+            let key = "eventconfig:default".to_string();
+            if only.as_ref().map(|o| *o == key).unwrap_or(true) && (d.terminal_count != n.terminal_count || d.direction != n.direction || d.terminal_count.is_some() || d.direction != Direction::All) {
+                rep.violations.push(Violation::new(&key, "event-config", format!("EventConfig::default() is (terminal_count {:?}, direction {:?}), EventConfig::new() is ({:?}, {:?}); documented: not terminal, all directions", d.terminal_count, d.direction, n.terminal_count, n.direction), json!({"key": key})));
             }
         }
         for q in &seqs {
